@@ -19,7 +19,7 @@ pub fn jobs(ctx: &Ctx) -> Vec<RJob> {
     let versions: Vec<usize> = ctx.tier.pick(vec![1, 2, 7, 10, 20, 40], (1..=40).collect());
     let mut out = Vec::new();
     let mut k = 0u64;
-    let reps = ctx.tier.pick(1, ctx.scale(3));
+    let reps = ctx.tier.pick(1, ctx.scale(5));
     for &v in &versions {
         for shape in 0..6usize {
             for (mi, &margin) in [0usize, 1, 4].iter().enumerate() {
